@@ -9,6 +9,7 @@ import (
 	"os"
 	"reflect"
 	"regexp"
+	"strconv"
 	"strings"
 	"time"
 
@@ -422,8 +423,27 @@ func cueDangerous(data []byte) bool {
 			return true
 		}
 	}
-	return false
+	// A chain of smaller factors ('ab'*18446*184467*...) grows just as far:
+	// multiply every factor of fewer than 18 digits that stands next to a '*'.
+	product := 1.0
+	for _, m := range cueFactor.FindAllSubmatch(data, -1) {
+		num := m[1]
+		if len(num) == 0 {
+			num = m[2]
+		}
+		clean := strings.ReplaceAll(string(num), "_", "")
+		if len(clean) == 0 || len(clean) >= 18 {
+			continue
+		}
+		if f, err := strconv.ParseFloat(clean, 64); err == nil && f > 1 {
+			product *= f
+		}
+	}
+	return product >= 1e8
 }
+
+// cueFactor matches a decimal number standing directly after or before a '*'.
+var cueFactor = regexp.MustCompile(`\*\s*([0-9_]+)|([0-9_]+)\s*\*`)
 
 func runDecoder(name string, dec dials.Decoder) func(sel int, data []byte) textResult {
 	return func(sel int, data []byte) textResult {
@@ -450,6 +470,10 @@ func runDecoder(name string, dec dials.Decoder) func(sel int, data []byte) textR
 				strings.Contains(msg, "Can't convert") || strings.Contains(msg, "would overflow")
 			if fit {
 				labels = append(labels, "err-type-mismatch")
+			}
+			if strings.Contains(msg, "panic while evaluating cue config") {
+				// the Cue decoder recovers panics over its whole Decode (also dials' own reverse translation) and reports them as errors
+				labels = append(labels, "cue-recovered-panic")
 			}
 			return textResult{labels: append(labels, "err"), nt: fit}
 		}
